@@ -429,8 +429,11 @@ def main():
         assumptions=spec.get("assumptions", []),
         wall_s=round(wall, 2), violations=len(violations),
     )
-    os.makedirs(os.path.join(VERIF, "evidence"), exist_ok=True)
-    with open(os.path.join(VERIF, "evidence", f"{pid}.json"), "w") as f:
+    # runs against a scratch copy of the repository (mutation experiments) must not overwrite the evidence
+    # of the real tree
+    evdir = "evidence" if os.path.realpath(REPO) == "/repo" else os.path.join("build", "evidence_scratch")
+    os.makedirs(os.path.join(VERIF, evdir), exist_ok=True)
+    with open(os.path.join(VERIF, evdir, f"{pid}.json"), "w") as f:
         json.dump(evidence, f, indent=1, default=str)
 
     # 8. report
